@@ -14,8 +14,8 @@
 (***************************************************************************)
 EXTENDS Props, Json, IOUtils
 
-VARIABLES l, rep
-tvars == <<st, cfg, resp, l, rep>>
+VARIABLES l, rep, saved
+tvars == <<st, cfg, resp, l, rep, saved>>
 
 T == ndJsonDeserialize(IOEnv.VERIF_TRACE)
 
@@ -131,19 +131,29 @@ RespFromObs(o) ==
 MaxRep == 200
 
 TraceInit ==
-  /\ l = 1 /\ rep = <<>>
+  /\ l = 1 /\ rep = <<>> /\ saved = <<>>
   /\ cfg = [modules |-> <<>>, whitelist |-> <<>>]
   /\ st = InitState([p \in Pids |-> NoUser])
   /\ resp = R0
 
+\* a step with an injected backend failure (C18): the specification has no
+\* fault model, so conformance is not compared; the fault clauses and the
+\* general clauses are evaluated on the observed step, with the fault-free
+\* specification step r as the reference
 StepLine(line) ==
   LET e    == line.e
+      faulted == e.fault > 0 /\ line.resp.faultHit
       r    == Apply(st, cfg, e)
+      obsLive == Live(FromObs(line.post, cfg, line.iss, {}, {}))
       S2   == FromObs(line.post, cfg, line.iss,
                       st.scPhone \cup {<<s.code, s.phone>> : s \in SmsObsSet(line.resp.sms)},
-                      r.st.spent)
-      d    == Diff(r.st, cfg, line.post) \cup (IF e.act \in EnvActs THEN {} ELSE RespDiff(r.resp, line.resp))
-      pv   == PropViolations(st, S2, cfg, e, RespFromObs(line.resp))
+                      IF faulted THEN st.spent \cup (Live(st) \ obsLive) ELSE r.st.spent)
+      d    == IF faulted THEN {}
+              ELSE Diff(r.st, cfg, line.post) \cup (IF e.act \in EnvActs THEN {} ELSE RespDiff(r.resp, line.resp))
+      pv   == IF faulted
+              THEN FaultViolations(st, S2, cfg, e, RespFromObs(line.resp), r)
+                   \cup (PropViolations(st, S2, cfg, e, RespFromObs(line.resp)) \cap FaultTolerantClauses)
+              ELSE PropViolations(st, S2, cfg, e, RespFromObs(line.resp))
       add1 == IF d = {} THEN <<>>
               ELSE <<[kind |-> "mismatch", l |-> l, act |-> e.act,
                       fields |-> {x[1] : x \in d}, detail |-> ToString(d)]>>
@@ -154,6 +164,7 @@ StepLine(line) ==
       /\ resp' = r.resp
       /\ cfg' = cfg
       /\ rep' = IF Len(rep) >= MaxRep THEN rep ELSE rep \o add1 \o add2
+      /\ saved' = saved
 
 TraceNext ==
   /\ l <= Len(T)
@@ -164,6 +175,11 @@ TraceNext ==
             /\ st' = FromObs(line.post, cfg', line.iss, {}, {})
             /\ resp' = R0
             /\ rep' = rep
+            /\ saved' = <<>>
+       ELSE IF line.kind = "save"
+       THEN /\ saved' = <<st>> /\ UNCHANGED <<st, cfg, resp, rep>>
+       ELSE IF line.kind = "restore"
+       THEN /\ st' = saved[1] /\ UNCHANGED <<cfg, resp, rep, saved>>
        ELSE StepLine(line)
 
 TraceSpec == TraceInit /\ [][TraceNext]_tvars
